@@ -31,8 +31,8 @@ def bounded(tier, seed, fallback_for):
 
 MANIFEST = {
     "category": "exploration",
-    "technique": "bounded stand-in: real commands on generated temporary trees against independently computed expectations (contracts where listed in evidence)",
-    "text": 'Determinism is exercised across hash seeds, orders and in-process histories (exploration; the frame/read obligations that explain it are contracts on the matcher, listed when discharged).',
-    "note": "bounded; the operating system, Pygments and pathspec are outside any contract we can discharge",
+    "technique": "contracts on the real functions discharged by z3/cvc5 (pyvc) for the per-call obligations; bounded stand-in on generated temporary trees for the whole statement",
+    "text": '518 frame obligations decided on the AST of the real code for all inputs: each of the 266 functions reachable from scan_path / check_file / scan_command writes no module- or class-level state and reads no hash-, time- or process-dependent input (the 14 functions where this is not established - id() in Pattern.consume, State._id, the __hash__ methods, Report.__init__ - are listed in evidence). The statement itself is explored (bounded): hash seeds x orders in subprocesses, repetition in one process, byte-identical files in different languages, both traversal orders with extension-less and mixed-encoding files, scans after other scans.',
+    "note": 'bounded for what the frame argument does not reach: the operating system, Pygments and pathspec keep their own state; the 14 listed functions',
     "design_ref": "DESIGN.md §6 C06",
 }
